@@ -150,12 +150,16 @@ class Program(object):
                 statement.determine_pcr_relative_sizes(self.statements, index, force_16_bit=True)
 
         address = 0
+        emitted = False
         for index, statement in enumerate(self.statements):
             try:
-                address = statement.set_address(address)
+                placed_at = statement.set_address(address)
             except ValueTypeError as error:
                 raise TranslationError(str(error), statement)
-            address += statement.code_pkg.size
+            if emitted and placed_at != address:
+                raise TranslationError("the image would not be contiguous: code precedes this ORG", statement)
+            address = placed_at + statement.code_pkg.size
+            emitted = emitted or statement.code_pkg.size > 0
 
         for index, statement in enumerate(self.statements):
             try:
@@ -169,9 +173,11 @@ class Program(object):
                 self.symbol_table[symbol] = self.statements[value.int].code_pkg.address
 
         # Find the origin and name of the project
+        emitted = False
         for statement in self.statements:
-            if statement.instruction.is_origin:
+            if statement.instruction.is_origin and not emitted:
                 self.origin = statement.code_pkg.address
+            emitted = emitted or statement.code_pkg.size > 0
             if statement.instruction.is_name:
                 self.name = statement.operand.operand_string
 
